@@ -3,6 +3,7 @@ import Tetl.C14.Spec
 namespace Tetl.C14
 open Tetl
 
+
 @[simp] theorem ok_bind {ε α β} (a : α) (f : α → Except ε β) : (Except.ok a >>= f) = f a := rfl
 @[simp] theorem error_bind {ε α β} (e : ε) (f : α → Except ε β) : (Except.error e >>= f) = Except.error e := rfl
 @[simp] theorem pure_eq_ok {ε α} (a : α) : (pure a : Except ε α) = Except.ok a := rfl
@@ -91,19 +92,6 @@ theorem arith_ok (p : ITy) (hw : 1 ≤ p.w) (x : Int) (h : p.inR x = true) : ari
   · simp [conv_of_inR p hw x h]
   · simp [h]
 
-/-- add_sat (builtin path) = clamp of the exact sum -/
-theorem addSat_eq (t : ITy) (hw : 1 ≤ t.w) (x y : Int) (hx : t.inR x = true) (hy : t.inR y = true) :
-    addSat t x y = .ok (Spec.clampTo t.min t.max (x + y)) := by
-  obtain ⟨w, sg⟩ := t
-  have h2 := two_pow_split w hw
-  have hp : (0:Int) < 2^(w-1) := Int.pow_pos (by decide)
-  rw [inR_iff] at hx hy
-  unfold addSat Spec.clampTo
-  cases sg <;> simp only [ITy.min, ITy.max, inR_iff] at * <;> simp at * <;>
-    generalize (2:Int)^(w-1) = P at * <;> generalize (2:Int)^w = Q at *
-  · split <;> split <;> (try split) <;> first | rfl | (congr 1; omega) | omega
-  · split <;> split <;> (try split) <;> first | rfl | (congr 1; omega) | omega
-
 theorem promote_w (t : ITy) (hw : 1 ≤ t.w) : 1 ≤ t.promote.w := by
   unfold ITy.promote; split
   · simp
@@ -130,33 +118,6 @@ theorem promote_inR (t : ITy) (hw : 1 ≤ t.w) (x : Int) (h : t.inR x = true) : 
     have h2 := pow_mono (w-1) 31 (by omega)
     cases sg <;> simp only [ITy.min, ITy.max] at * <;> simp at * <;> omega
   · exact h
-
-theorem addSatFallback_eq (t : ITy) (hw : 1 ≤ t.w) (x y : Int) (hx : t.inR x = true) (hy : t.inR y = true) :
-    addSatFallback t x y = .ok (Spec.clampTo t.min t.max (x + y)) := by
-  have hclamp : t.inR (clamp (x + y) t.min t.max) = true := by
-    rw [inR_iff] at *; unfold clamp; split <;> (try split) <;> omega
-  have hceq : clamp (x + y) t.min t.max = Spec.clampTo t.min t.max (x + y) := by
-    unfold clamp Spec.clampTo; split <;> (try split) <;> (try split) <;> omega
-  unfold addSatFallback
-  split
-  · rw [conv_of_inR t hw _ hclamp, hceq]
-  · split
-    · rw [conv_of_inR t hw _ hclamp, hceq]
-    · rw [inR_iff] at hx hy
-      have hmm := min_max_zero t
-      split
-      · rw [arith_ok t hw (t.max - x) (by rw [inR_iff]; omega)]
-        simp only [ok_bind]
-        split
-        · unfold Spec.clampTo; congr 1; split <;> (try split) <;> omega
-        · rw [arith_ok t hw (x + y) (by rw [inR_iff]; omega)]
-          unfold Spec.clampTo; congr 1; split <;> (try split) <;> omega
-      · rw [arith_ok t hw (t.min - x) (by rw [inR_iff]; omega)]
-        simp only [ok_bind]
-        split
-        · unfold Spec.clampTo; congr 1; split <;> (try split) <;> omega
-        · rw [arith_ok t hw (x + y) (by rw [inR_iff]; omega)]
-          unfold Spec.clampTo; congr 1; split <;> (try split) <;> omega
 
 /-! ## midpoint -/
 
@@ -219,79 +180,6 @@ theorem tdiv2_bounds (d : Int) : (0 ≤ d → 0 ≤ Int.tdiv d 2 ∧ 2 * Int.tdi
     have : d = -(-d) := by omega
     rw [this, Int.neg_tdiv, Int.tdiv_eq_ediv_of_nonneg (by omega)]; omega
 
-theorem midpoint_eq (t : ITy) (hw : 1 ≤ t.w) (hstd : t.w ≤ 16 ∨ 32 ≤ t.w) (a b : Int)
-    (ha : t.inR a = true) (hb : t.inR b = true) :
-    midpoint t a b = .ok (Spec.midpoint a b) ∧ t.inR (Spec.midpoint a b) = true := by
-  have h2 := two_pow_split t.w hw
-  have hp : (0:Int) < 2^(t.w-1) := Int.pow_pos (by decide)
-  have hwlt := lt_two_pow_int t.w
-  have hb2 := tdiv2_bounds (b - a)
-  have hmm := min_max_zero t
-  rw [inR_iff] at ha hb
-  -- the result lies between a and b
-  have hm : t.inR (Spec.midpoint a b) = true := by
-    rw [inR_iff]; unfold Spec.midpoint
-    by_cases h : 0 ≤ b - a
-    · have := hb2.1 h; omega
-    · have := hb2.2 (by omega); omega
-  refine ⟨?_, hm⟩
-  have hrange : -(2:Int)^t.w < b - a ∧ b - a < 2^t.w := by
-    obtain ⟨w, sg⟩ := t
-    cases sg <;> simp only [ITy.min, ITy.max] at ha hb <;> simp at ha hb <;> simp only [] at h2 ⊢ <;> omega
-  have hhalf := midpoint_half t.w hw a b hrange
-  unfold midpoint
-  have hshift : (t.uns.conv ((t.w : Int) - 1)).toNat = t.w - 1 := by
-    show (ITy.conv ⟨t.w, false⟩ ((t.w : Int) - 1)).toNat = t.w - 1
-    rw [convU, Int.emod_eq_of_lt (by omega) (by omega)]; omega
-  have hdiff : t.uns.conv (t.uns.conv b - t.uns.conv a) = (b - a) % 2^t.w := by
-    show ITy.conv ⟨t.w, false⟩ (ITy.conv ⟨t.w, false⟩ b - ITy.conv ⟨t.w, false⟩ a) = _
-    rw [convU, convU, convU, ← Int.sub_emod]
-  simp only [hshift, hdiff]
-  have hpw : t.w - 1 < pw t.w := by unfold pw; split <;> omega
-  simp only [hpw, decide_true, Bool.not_true, Bool.false_eq_true, if_false]
-  have hconvhalf : ∀ N : Int, N % 2^t.w = (Int.tdiv (b - a) 2) % 2^t.w →
-      t.conv (t.uns.conv N) = t.conv (Int.tdiv (b - a) 2) := by
-    intro N hN
-    show t.conv (ITy.conv ⟨t.w, false⟩ N) = _
-    rw [convU, hN, conv_emod]
-  rw [hconvhalf _ hhalf]
-  obtain ⟨hcr, k, hck⟩ := conv_spec t hw (Int.tdiv (b - a) 2)
-  have hfinal : t.conv (a + t.conv (Int.tdiv (b - a) 2)) = Spec.midpoint a b := by
-    rw [hck]
-    have : a + (Int.tdiv (b - a) 2 - k * 2^t.w) = Spec.midpoint a b - k * 2^t.w := by
-      unfold Spec.midpoint; omega
-    rw [this, conv_sub_mul, conv_of_inR t hw _ hm]
-  rcases hstd with hn | hwide
-  · -- narrower than int: the addition is exact in `int`
-    have hprom : t.promote = ⟨32, true⟩ := by unfold ITy.promote; simp; omega
-    rw [hprom]
-    have h16 := pow_mono t.w 16 hn
-    have h15 := pow_mono (t.w - 1) 16 (by omega)
-    have hin : ITy.inR ⟨32, true⟩ (a + t.conv (Int.tdiv (b - a) 2)) = true := by
-      rw [inR_iff]
-      obtain ⟨w, sg⟩ := t
-      cases sg <;> simp only [ITy.min, ITy.max] at ha hb hcr ⊢ <;> simp at ha hb hcr ⊢ <;> simp only [] at h16 h15 <;> omega
-    rw [arith_ok _ (by simp) _ hin]
-    simp only [ok_bind, hfinal]
-  · have hprom : t.promote = t := by unfold ITy.promote; simp; omega
-    rw [hprom]
-    unfold arith
-    cases hs : t.sg
-    · simp only [Bool.false_eq_true, if_false, ok_bind]
-      rw [conv_of_inR t hw (t.conv _) (by rw [inR_iff]; exact (conv_spec t hw _).1), hfinal]
-    · have hh : t.inR (Int.tdiv (b - a) 2) = true := by
-        rw [inR_iff]
-        obtain ⟨w, sg⟩ := t
-        simp only [] at hs; subst hs
-        simp only [ITy.min, ITy.max] at ha hb ⊢; simp at ha hb ⊢; simp only [] at h2
-        by_cases h : 0 ≤ b - a
-        · have := hb2.1 h; omega
-        · have := hb2.2 (by omega); omega
-      rw [conv_of_inR t hw _ hh] at hfinal ⊢
-      have : a + Int.tdiv (b - a) 2 = Spec.midpoint a b := rfl
-      rw [this] at hfinal ⊢
-      simp only [if_true, hm, ok_bind, hfinal]
-
 /-! ## rotations -/
 
 theorem rot_core (w t r : Nat) (ht : t < 2^w) (hrw : r < w) :
@@ -319,40 +207,6 @@ theorem rot_count (w : Nat) (hdvd : (w : Int) ∣ 2^32) (s : Int) :
   have : ((((s % 2^32).toNat % w : Nat)) : Int) = s % (w : Int) := by
     rw [Int.natCast_emod, Int.toNat_of_nonneg h0, Int.emod_emod_of_dvd _ hdvd]
   omega
-
-theorem rotl_eq (w t : Nat) (s : Int) (hw : 0 < w) (hdvd : (w : Int) ∣ 2^32) (ht : t < 2^w) :
-    rotl w t s = .ok (Spec.rotl w t s) := by
-  unfold rotl Spec.rotl
-  simp only [rot_count w hdvd s]
-  have hrlt : (s % (w : Int)).toNat < w := by
-    have := Int.emod_lt_of_pos s (by omega : (0:Int) < w)
-    have := Int.emod_nonneg s (by omega : (w:Int) ≠ 0)
-    omega
-  generalize (s % (w : Int)).toNat = r at *
-  by_cases hr : r = 0
-  · subst hr
-    simp [Nat.mod_eq_of_lt ht, Nat.div_eq_of_lt ht]
-  · simp only [beq_iff_eq, hr, if_false]
-    rw [rot_core w t r ht hrlt]
-
-theorem rotr_eq (w t : Nat) (s : Int) (hw : 0 < w) (hdvd : (w : Int) ∣ 2^32) (ht : t < 2^w) :
-    rotr w t s = .ok (Spec.rotr w t s) := by
-  unfold rotr Spec.rotr
-  simp only [rot_count w hdvd s]
-  have hrlt : (s % (w : Int)).toNat < w := by
-    have := Int.emod_lt_of_pos s (by omega : (0:Int) < w)
-    have := Int.emod_nonneg s (by omega : (w:Int) ≠ 0)
-    omega
-  generalize (s % (w : Int)).toNat = r at *
-  by_cases hr : r = 0
-  · subst hr
-    simp
-  · simp only [beq_iff_eq, hr, if_false]
-    have h := rot_core w t (w - r) ht (by omega)
-    have hwr : w - (w - r) = r := by omega
-    rw [hwr] at h
-    rw [Nat.or_comm, h, Nat.add_comm]
-
 
 /-! ## safe comparisons -/
 
@@ -433,103 +287,10 @@ theorem uns_inR (T : ITy) (hw : 1 ≤ T.w) (t : Int) (ht : T.inR t = true) (h0 :
 theorem nonneg_of_unsigned (U : ITy) (hs : U.sg = false) (u : Int) (hu : U.inR u = true) : 0 ≤ u := by
   rw [inR_iff] at hu; unfold ITy.min at hu; simp [hs] at hu; exact hu.1
 
-theorem cmpLess_eq (T U : ITy) (hT : 1 ≤ T.w) (hU : 1 ≤ U.w) (t u : Int)
-    (ht : T.inR t = true) (hu : U.inR u = true) : cmpLess T U t u = decide (t < u) := by
-  unfold cmpLess
-  by_cases hs : T.sg = U.sg
-  · simp only [hs, beq_self_eq_true, if_true]
-    exact builtinLt_eq T U hs t u ht hu
-  · have hne : (T.sg == U.sg) = false := by simp [hs]
-    simp only [hne, Bool.false_eq_true, if_false]
-    cases hTs : T.sg
-    · -- T unsigned, U signed
-      have hUs : U.sg = true := by cases h : U.sg <;> simp_all
-      have ht0 := nonneg_of_unsigned T hTs t ht
-      simp only [Bool.false_eq_true, if_false]
-      by_cases hu0 : u < 0
-      · simp only [hu0, if_true]; symm; simp; omega
-      · simp only [hu0, if_false]
-        have huu := uns_inR U hU u hu (by omega)
-        rw [conv_of_inR U.uns hU u huu]
-        exact builtinLt_eq T U.uns (by simp [ITy.uns, hTs]) t u ht huu
-    · have hUs : U.sg = false := by cases h : U.sg <;> simp_all
-      have hu0 := nonneg_of_unsigned U hUs u hu
-      simp only [if_true]
-      by_cases ht0 : t < 0
-      · simp only [ht0, if_true]; symm; simp; omega
-      · simp only [ht0, if_false]
-        have htu := uns_inR T hT t ht (by omega)
-        rw [conv_of_inR T.uns hT t htu]
-        exact builtinLt_eq T.uns U (by simp [ITy.uns, hUs]) t u htu hu
-
-theorem cmpEqual_eq (T U : ITy) (hT : 1 ≤ T.w) (hU : 1 ≤ U.w) (t u : Int)
-    (ht : T.inR t = true) (hu : U.inR u = true) : cmpEqual T U t u = decide (t = u) := by
-  unfold cmpEqual
-  by_cases hs : T.sg = U.sg
-  · simp only [hs, beq_self_eq_true, if_true]
-    exact builtinEq_eq T U hs t u ht hu
-  · have hne : (T.sg == U.sg) = false := by simp [hs]
-    simp only [hne, Bool.false_eq_true, if_false]
-    cases hTs : T.sg
-    · have hUs : U.sg = true := by cases h : U.sg <;> simp_all
-      have ht0 := nonneg_of_unsigned T hTs t ht
-      simp only [Bool.false_eq_true, if_false]
-      by_cases hu0 : u < 0
-      · simp only [hu0, if_true]; symm; simp; omega
-      · simp only [hu0, if_false]
-        have huu := uns_inR U hU u hu (by omega)
-        rw [conv_of_inR U.uns hU u huu]
-        exact builtinEq_eq T U.uns (by simp [ITy.uns, hTs]) t u ht huu
-    · have hUs : U.sg = false := by cases h : U.sg <;> simp_all
-      have hu0 := nonneg_of_unsigned U hUs u hu
-      simp only [if_true]
-      by_cases ht0 : t < 0
-      · simp only [ht0, if_true]; symm; simp; omega
-      · simp only [ht0, if_false]
-        have htu := uns_inR T hT t ht (by omega)
-        rw [conv_of_inR T.uns hT t htu]
-        exact builtinEq_eq T.uns U (by simp [ITy.uns, hUs]) t u htu hu
-
-theorem cmpNotEqual_eq (T U : ITy) (hT : 1 ≤ T.w) (hU : 1 ≤ U.w) (t u : Int)
-    (ht : T.inR t = true) (hu : U.inR u = true) : cmpNotEqual T U t u = decide (t ≠ u) := by
-  unfold cmpNotEqual; rw [cmpEqual_eq T U hT hU t u ht hu]; simp
-
-theorem cmpGreater_eq (T U : ITy) (hT : 1 ≤ T.w) (hU : 1 ≤ U.w) (t u : Int)
-    (ht : T.inR t = true) (hu : U.inR u = true) : cmpGreater T U t u = decide (t > u) := by
-  unfold cmpGreater; rw [cmpLess_eq U T hU hT u t hu ht]
-
-theorem cmpLessEqual_eq (T U : ITy) (hT : 1 ≤ T.w) (hU : 1 ≤ U.w) (t u : Int)
-    (ht : T.inR t = true) (hu : U.inR u = true) : cmpLessEqual T U t u = decide (t ≤ u) := by
-  unfold cmpLessEqual; rw [cmpGreater_eq T U hT hU t u ht hu]
-  by_cases h : t ≤ u <;> simp [h] <;> omega
-
-theorem cmpGreaterEqual_eq (T U : ITy) (hT : 1 ≤ T.w) (hU : 1 ≤ U.w) (t u : Int)
-    (ht : T.inR t = true) (hu : U.inR u = true) : cmpGreaterEqual T U t u = decide (t ≥ u) := by
-  unfold cmpGreaterEqual; rw [cmpLess_eq T U hT hU t u ht hu]
-  by_cases h : t ≥ u <;> simp [h] <;> omega
-
 theorem inR_min (t : ITy) : t.inR t.min = true := by
   have := min_max_zero t; rw [inR_iff]; omega
 theorem inR_max (t : ITy) : t.inR t.max = true := by
   have := min_max_zero t; rw [inR_iff]; omega
-
-theorem inRange_eq (R T : ITy) (hR : 1 ≤ R.w) (hT : 1 ≤ T.w) (t : Int) (ht : T.inR t = true) :
-    inRange R T t = R.inR t := by
-  unfold inRange
-  rw [cmpGreaterEqual_eq T R hT hR t R.min ht (inR_min R), cmpLessEqual_eq T R hT hR t R.max ht (inR_max R)]
-  unfold ITy.inR
-  by_cases h1 : R.min ≤ t <;> by_cases h2 : t ≤ R.max <;> simp [h1, h2] <;> omega
-
-theorem saturateCast_eq (To From : ITy) (hTo : 1 ≤ To.w) (hFrom : 1 ≤ From.w) (x : Int) (hx : From.inR x = true) :
-    saturateCast To From x = .ok (Spec.clampTo To.min To.max x) := by
-  unfold saturateCast Spec.clampTo
-  rw [cmpLess_eq From To hFrom hTo x To.min hx (inR_min To), cmpGreater_eq From To hFrom hTo x To.max hx (inR_max To)]
-  by_cases h1 : x < To.min
-  · simp [h1]
-  · by_cases h2 : x > To.max
-    · simp [h1, h2]
-    · simp only [h1, h2, decide_false, Bool.false_eq_true, if_false]
-      rw [conv_of_inR To hTo x (by rw [inR_iff]; omega)]
 
 /-! ## popcount and the leading-zero family -/
 
@@ -656,73 +417,62 @@ theorem clzLoop_eq (w : Nat) (hw : 1 ≤ w) : ∀ f x res, 0 < x → x < 2^w →
       have : ¬ Spec.bitWidth x ≤ w - 1 := by rw [bw_le]; exact h
       congr 1; omega
 
-theorem countlZero_eq (w x : Nat) (hw : 1 ≤ w) (hx : x < 2^w) :
-    countlZero w x = .ok (Spec.countlZero w x) := by
-  unfold countlZero Spec.countlZero
-  by_cases h : x = 0
-  · subst h; simp [Spec.bitWidth]
-  · simp only [beq_iff_eq, h, if_false]
-    rw [clzLoop_eq w hw w x 0 (by omega) hx]
-    · simp
-    · have : 1 ≤ Spec.bitWidth x := by unfold Spec.bitWidth; simp [h]
-      omega
-
-theorem bitWidth_eq (w x : Nat) (hw : 1 ≤ w) (hx : x < 2^w) : bitWidth w x = .ok (Spec.bitWidth x) := by
-  unfold bitWidth
-  rw [countlZero_eq w x hw hx]
-  have := (bw_le x w).2 hx
-  simp only [ok_bind, Spec.countlZero]
-  congr 1; omega
-
 theorem pw_ge (w : Nat) : w ≤ pw w := by unfold pw; split <;> omega
 
-theorem bitFloor_eq (w x : Nat) (hw : 1 ≤ w) (hx : x < 2^w) : bitFloor w x = .ok (Spec.bitFloor x) := by
-  unfold bitFloor Spec.bitFloor
-  by_cases h : x = 0
-  · simp [h]
-  · simp only [bne_iff_ne, ne_eq, h, not_false_eq_true, if_true, if_false]
-    rw [bitWidth_eq w x hw hx]
-    simp only [ok_bind]
-    have hbw := (bw_le x w).2 hx
-    have hb1 : Spec.bitWidth x = Nat.log2 x + 1 := by unfold Spec.bitWidth; simp [h]
-    have hlt : Spec.bitWidth x < 2^w := Nat.lt_of_le_of_lt hbw Nat.lt_two_pow_self
-    have hsh : (ITy.conv ⟨w, false⟩ (((Spec.bitWidth x % 2^w : Nat) : Int) - 1)).toNat = Nat.log2 x := by
-      rw [convU, Nat.mod_eq_of_lt hlt]
-      have hc : ((2:Nat)^w : Int) = (2:Int)^w := by simp
-      rw [Int.emod_eq_of_lt (by omega) (by rw [← hc]; omega)]; omega
-    rw [hsh]
-    have hpw := pw_ge w
-    have hl : Nat.log2 x < w := by omega
-    simp only [show Nat.log2 x < pw w by omega, if_true]
-    rw [Nat.shiftLeft_eq, Nat.one_mul, Nat.mod_eq_of_lt (Nat.pow_lt_pow_right (by decide) hl)]
+/-! ## ilog2, gcd, lcm, abs -/
 
-/-- documented domain of `bit_ceil`: the result `2^k >= x` must be representable -/
-theorem bitCeil_eq (w x : Nat) (hw : 1 ≤ w) (hx : x ≤ 2^(w-1)) : bitCeil w x = .ok (Spec.bitCeil x) := by
-  have hsplit : 2^w = 2 * 2^(w-1) := by
-    obtain ⟨k, rfl⟩ : ∃ k, w = k+1 := ⟨w-1, by omega⟩
-    rw [Nat.pow_succ]; simp; omega
-  have hpos : 0 < 2^(w-1) := Nat.pow_pos (by decide)
-  unfold bitCeil Spec.bitCeil
-  by_cases h : x ≤ 1
-  · simp [h]
+theorem ilog2Loop_eq : ∀ x r, ilog2Loop x r = r + Nat.log2 x := by
+  intro x
+  induction x using Nat.strongRecOn with
+  | _ x ih =>
+    intro r
+    unfold ilog2Loop
+    rw [Nat.log2_def]
+    by_cases h : x > 1
+    · have h2 : 2 ≤ x := h
+      simp only [h, h2, dite_true, if_true]
+      rw [ih (x / 2) (by omega)]; omega
+    · have h2 : ¬ 2 ≤ x := by omega
+      simp [h, h2]
+
+/-- `|x|` computed in the unsigned common type -/
+theorem absAs_eq (U : ITy) (hw : 1 ≤ U.w) (hs : U.sg = false) (x : Int) (hx : (x.natAbs : Int) < 2^U.w) :
+    absAs U x = x.natAbs := by
+  obtain ⟨w, sg⟩ := U
+  simp only [] at hs; subst hs
+  have h2 := two_pow_split w hw
+  unfold absAs
+  simp only [convU]
+  simp only [] at hx h2
+  generalize (2:Int)^(w-1) = P at *
+  generalize (2:Int)^w = Q at *
+  by_cases h : x < 0
+  · simp only [h, if_true]
+    rw [emod_shift x Q (-1) (by omega) (by omega), emod_shift (0 - (x - -1 * Q)) Q (-1) (by omega) (by omega)]
+    omega
   · simp only [h, if_false]
-    have hx1 : x - 1 < 2^w := by omega
-    rw [Nat.mod_eq_of_lt hx1, bitWidth_eq w (x - 1) hw hx1]
-    simp only [ok_bind]
-    have hne : x - 1 ≠ 0 := by omega
-    have hb1 : Spec.bitWidth (x - 1) = Nat.log2 (x - 1) + 1 := by unfold Spec.bitWidth; simp [hne]
-    have hb : Spec.bitWidth (x - 1) ≤ w - 1 := (bw_le (x - 1) (w - 1)).2 (by omega)
-    rw [← hb1]
-    generalize Spec.bitWidth (x - 1) = b at *
-    have hbw : b < w := by omega
-    by_cases hwide : w ≥ 32
-    · simp only [hwide, if_true, hbw]
-      rw [Nat.shiftLeft_eq, Nat.one_mul, Nat.mod_eq_of_lt (Nat.pow_lt_pow_right (by decide) hbw)]
-    · simp only [hwide, if_false]
-      have ho : b + (32 - w) < 32 := by omega
-      simp only [ho, if_true]
-      rw [Nat.shiftLeft_eq, Nat.one_mul, Nat.mod_eq_of_lt (Nat.pow_lt_pow_right (by decide) ho),
-        Nat.shiftRight_eq_div_pow, Nat.pow_add, Nat.mul_div_cancel _ (Nat.pow_pos (by decide)),
-        Nat.mod_eq_of_lt (Nat.pow_lt_pow_right (by decide) hbw)]
+    rw [emod_shift x Q 0 (by omega) (by omega)]; omega
+
+theorem common_w (M N : ITy) (hM : 1 ≤ M.w) (hN : 1 ≤ N.w) : 1 ≤ (ITy.common M N).w := by
+  have ha := promote_w M hM
+  have hb := promote_w N hN
+  unfold ITy.common ITy.usual
+  generalize M.promote = a at *
+  generalize N.promote = b at *
+  dsimp only
+  repeat' split
+  all_goals assumption
+
+theorem max_lt_pow (R : ITy) (hw : 1 ≤ R.w) : R.max < 2^R.w := by
+  have h2 := two_pow_split R.w hw
+  have hp : (0:Int) < 2^(R.w-1) := Int.pow_pos (by decide)
+  unfold ITy.max; cases R.sg <;> simp <;> omega
+
+theorem neg_inR (t : ITy) (hs : t.sg = true) (_hw : 1 ≤ t.w) (x : Int) (hx : t.inR x = true) (hmin : x ≠ t.min) (_hneg : x < 0) :
+    t.inR (-x) = true := by
+  rw [inR_iff] at *
+  unfold ITy.min ITy.max at *
+  simp only [hs, if_true] at *
+  omega
 
 end Tetl.C14
